@@ -14,8 +14,18 @@ TRUSTED = [
     "translator/c07.py (python ast -> Gen_C07.v `src_cfg`): which rows create_params of the three modes builds, how "
     "_run_pipelines_array_to_datatree binds the tuple to the keys, which mapping it zips, whether "
     "_get_short_dimension_names_new / _get_parameter_types keep the order of the enabled steps; fails closed",
+    "translator/c07.py, pickle rows (`src_pickle_hooks`): for every class with __getstate__/__setstate__ under "
+    "pyxel/{pipelines,detectors,data_structure,outputs,exposure,observation,calibration} how each attribute __init__ sets "
+    "comes back (AWhole / ARecreated / ARebuilt kept / AMissing), whether the class has a __deepcopy__ of its own; that a "
+    "kept constructor keyword of a rebuilt ModelFunction carries the value it was built with is believed, not checked; "
+    "ModelGroup.__iter__/run row; __reduce__ & co fail closed",
+    "Python's default pickling and copy.deepcopy restore an object without hooks attribute by attribute, and deepcopy "
+    "goes through __getstate__/__setstate__ of a class without __deepcopy__ (modelled, not verified); "
+    "dask.multiprocessing.get driven by an in-process executor serialises and unpickles every task exactly as with "
+    "worker processes (the same cloudpickle dumps / loads calls; real 2-process pools are sampled too)",
     "correspondence harness: harness/props/c07.py generators, harness/drivers/c07.py, probes/verif_probes_c07.py "
-    "(base-16 code of the received arguments in the pixel bucket; decoded by the driver)",
+    "(base-16 code of the received arguments in the pixel bucket, execution trace and detector/readout settings in two "
+    "more columns; decoded by the driver)",
     "modelled, not verified: pandas MultiIndex.from_product/to_xarray (levels sorted, cell = its own label, repeated "
     "value refused), Python zip, xarray.apply_ufunc + dask (every chunk computed once and placed by index -- sampled "
     "under 6 scheduler configurations with data-dependent delays), ThreadPoolExecutor.map order, numpy's global "
@@ -25,10 +35,23 @@ TRUSTED = [
 SCHEDS = [dict(scheduler="synchronous"), dict(scheduler="threads", workers=1), dict(scheduler="threads", workers=2),
           dict(scheduler="threads", workers=4), dict(scheduler="threads", workers=16)]
 PROC = dict(scheduler="processes", workers=2)
+# what a worker PROCESS receives, without starting processes: dask's process-pool scheduler (every task serialised with
+# cloudpickle and unpickled where it executes) driven by an in-process executor; and the caller's detector + pipeline
+# sent through pickle / cloudpickle before the parallel run.  Regular members of the scheduler dimension.
+PICKLED = [dict(scheduler="processes", pool="sync"), dict(scheduler="processes", pool="threads", workers=4),
+           dict(scheduler="synchronous", pre="pickle"), dict(scheduler="threads", workers=2, pre="cloudpickle")]
+ALL_SCHEDS = SCHEDS + PICKLED
 
 
 def sname(s):
-    return s["scheduler"] + (str(s["workers"]) if s.get("workers") else "")
+    w = str(s["workers"]) if s.get("workers") else ""
+    if s.get("pool"):
+        return "pickled-" + s["pool"] + w
+    return s["scheduler"] + w + ("+" + s["pre"] if s.get("pre") else "")
+
+
+def is_pickled(s) -> bool:
+    return s["scheduler"] == "processes" or bool(s.get("pre"))
 
 
 # ------------------------------------------------------------------------------------------ cases
@@ -118,7 +141,7 @@ def partitions(n):
     return out
 
 
-def gen_encs(r, mode, pattern, vector="mix", share=True):
+def gen_encs(r, mode, pattern, vector="mix", share=True, decoys=None):
     """parameters whose SHORT names collide according to `pattern` (same group = same argument name, in different
     model instances); every parameter's received value is recorded separately by the probe instance that owns it"""
     n = len(pattern)
@@ -186,11 +209,33 @@ def gen_encs(r, mode, pattern, vector="mix", share=True):
             case["defaults"][tslot] = 1 + case["defaults"][tslot] % 12
     if tslot is not None:
         case["detector_key"] = tslot
+    if decoys is not None:
+        # the pipeline in execution order [ident, enabled, group]: the instances that own slots (shuffled), `decoys`
+        # instances that are SWITCHED OFF (any group, any position) and sometimes one more that is switched on
+        owners = sorted({j for j, _ in layout})
+        r.shuffle(owners)
+        plan = [[j, True, 1] for j in owners]
+        free = [j for j in range(12) if j not in owners]
+        r.shuffle(free)
+        for _ in range(decoys):
+            plan.insert(r.randrange(len(plan) + 1), [free.pop(), False, r.choice([0, 1, 1, 2])])
+        if r.random() < 0.35:
+            plan.insert(r.randrange(len(plan) + 1), [free.pop(), True, r.choice([0, 1, 2])])
+        plan.sort(key=lambda e: e[2])
+        case["pipe"] = plan
+        if r.random() < 0.7:
+            # settings of the detector's sub-objects, read back by every run: pre-amplification, full well, ADC bits,
+            # thickness, pixel sizes (small integers)
+            # ... and of the readout handed to every task: time of the only step, destructive or not
+            case["det"] = [r.randrange(1, 13), r.randrange(1, 13), r.randrange(8, 13), r.randrange(1, 13),
+                           r.randrange(1, 13), r.randrange(1, 13), r.randrange(1, 13), r.randrange(0, 2)]
     return case
 
 
-def pick_scheds(r, k):
+def pick_scheds(r, k, pickled=0):
+    """k of the in-memory schedulers + `pickled` of the pickling ones"""
     s = [SCHEDS[i] for i in sorted(r.sample(range(len(SCHEDS)), k))]
+    s += [PICKLED[i] for i in sorted(r.sample(range(len(PICKLED)), pickled))]
     return s
 
 
@@ -225,7 +270,8 @@ def gen_cases(ctx: Ctx):
             r.choice(["product", "product", "custom", "sequential"]), r.randrange(1, 4), r.choice(["", "", "dup", "one_list"]))
         k += 1
         c = gen_enc(r, mode, npar, fl)
-        c["scheds"] = pick_scheds(r, 2 if ctx.quick else 3)
+        pk = 1 if k % 2 == 0 else 0          # every second case: one pickling member in place of an in-memory one
+        c["scheds"] = pick_scheds(r, (2 if ctx.quick else 3) - pk, pickled=pk)
         c["outputs"] = (k % 3 == 0)
         cases.append(c)
     # parameters whose short names collide (dimension names '<model>.<argument>'): every position pattern
@@ -239,8 +285,11 @@ def gen_cases(ctx: Ctx):
             if ctx.quick and not (mi == (i + rot) % 3 or (collide and len(pat) == 3 and mi == (i + rot + 1) % 3)):
                 continue
             for rep in range(1 if ctx.quick else 2):
-                c = gen_encs(r, mode, pat, vector=("mix" if rep == 0 else "all"))
-                c["scheds"] = pick_scheds(r, 1 if ctx.quick else 2)
+                # most pipelines also hold models that are SWITCHED OFF (and an execution trace): what a worker receives
+                # must not execute them -- under the in-memory schedulers and under the pickling ones
+                c = gen_encs(r, mode, pat, vector=("mix" if rep == 0 else "all"),
+                             decoys=(None if (i + mi + rep) % 5 == 4 else r.choice([0, 1, 1, 2])))
+                c["scheds"] = pick_scheds(r, 1 if ctx.quick else 2, pickled=(1 if ctx.quick else 2))
                 c["outputs"] = ((i + mi + rep) % 3 == 0)
                 cases.append(c)
     if not ctx.quick:
@@ -253,14 +302,31 @@ def gen_cases(ctx: Ctx):
                 cases.append(dict(kind="enc", mode="product", params=ps, defaults=[0] * n, outputs=True,
                                   sleep_scale=0.02, sleep_mult=r.randrange(1, 5),
                                   scheds=[dict(scheduler="threads", workers=4)]))
+    if not ctx.quick:
+        # exhaustive small scope: 1..3 further probe instances next to the one that owns the swept argument, EVERY
+        # assignment of switched on / off, every pickling member of the scheduler dimension
+        import itertools
+        for extra in (1, 2, 3):
+            for mask in itertools.product((False, True), repeat=extra):
+                c = gen_encs(r, "product", [0], vector="none", decoys=0)
+                own = c["layout"][0][0]
+                plan = [[own, True, 1]] + [[own + 1 + k, en, r.choice([0, 1, 2])] for k, en in enumerate(mask)]
+                r.shuffle(plan)
+                plan.sort(key=lambda e: e[2])
+                c["pipe"] = plan
+                c["scheds"] = [SCHEDS[0], SCHEDS[3]] + PICKLED
+                c["outputs"] = (extra == 2)
+                cases.append(c)
     # process pool (slow to start): a few cases
-    for j in range(ctx.budget(2, 8)):
+    for j in range(ctx.budget(1, 6)):
         c = gen_enc(r, ["product", "custom"][j % 2], 2, "")
         c["scheds"] = [PROC]
         c["outputs"] = (j % 2 == 0)
         cases.append(c)
-    for j in range(ctx.budget(1, 6)):
-        c = gen_encs(r, modes3[(j + rot) % 3], r.choice([q for q in pats if len(q) == 3 and len(set(q)) == 2]))
+    # ... every one of these with a model that is switched off: a real worker process must not execute it
+    for j in range(ctx.budget(3, 9)):
+        c = gen_encs(r, modes3[(j + rot) % 3], r.choice([q for q in pats if len(q) == (3 if j % 2 == 0 else 2)]),
+                     decoys=1 + j % 2)
         c["scheds"] = [PROC]
         c["outputs"] = (j % 2 == 1)
         cases.append(c)
@@ -284,11 +350,29 @@ def gen_cases(ctx: Ctx):
     for j in range(ctx.budget(3, 10)):
         cases.append(dict(kind="islands", n=r.randrange(2, 5), pop=r.randrange(7, 10), seed=r.randrange(1, 10 ** 6),
                           scale=0.002, bfe=True, chunk=r.choice([None, 1, 2, 3]), evolve=True, generations=2,
-                          scheds=[SCHEDS[0], dict(scheduler="threads", workers=[2, 4, 16][j % 3])]))
+                          scheds=[SCHEDS[0], dict(scheduler="threads", workers=[2, 4, 16][j % 3])]
+                          + ([PICKLED[j % 2]] if j % 3 != 2 else [])))
     for j in range(ctx.budget(3, 10)):
         cases.append(dict(kind="bfe", n=r.randrange(3, 12), seed=r.randrange(1, 10 ** 6),
-                          chunk=r.choice([None, 1, 2, 3, 5]), scale=0.003, scheds=pick_scheds(r, 2)))
+                          chunk=r.choice([None, 1, 2, 3, 5]), scale=0.003, scheds=pick_scheds(r, 2) + [PICKLED[j % 2]]))
+    # pyxel's own calibration problem on a pipeline with models that are switched off: candidates evaluated one by one
+    # here vs. through DaskBFE (every scheduler kind, the pickling ones always among them), and islands evolved by
+    # DaskIsland vs. the in-thread reference evolution
+    for j in range(ctx.budget(4, 12)):
+        cases.append(dict(kind="bfe", n=r.randrange(3, 9), seed=r.randrange(1, 10 ** 6), chunk=r.choice([None, 1, 2, 3]),
+                          fit=gen_fit(r), scheds=pick_scheds(r, 1) + [PICKLED[j % 2]]))
+    for j in range(ctx.budget(2, 6)):
+        cases.append(dict(kind="islands", n=r.randrange(2, 4), pop=r.randrange(7, 9), seed=r.randrange(1, 10 ** 6),
+                          bfe=(j % 2 == 0), chunk=r.choice([None, 2]), evolve=True, generations=1, fit=gen_fit(r),
+                          scheds=[SCHEDS[0], PICKLED[j % 2]]))
     return cases
+
+
+def gen_fit(r):
+    rows, cols = r.choice([(1, 2), (2, 2), (2, 3)])
+    return dict(pattern=[[r.randrange(1, 9) for _ in range(cols)] for _ in range(rows)],
+                target=[[r.randrange(0, 40) for _ in range(cols)] for _ in range(rows)],
+                off=[r.randrange(0, 3) for _ in range(r.choice([1, 1, 2]))])
 
 
 # ------------------------------------------------------------------------------------------ Coq emission
@@ -353,7 +437,7 @@ def expand(case, obs):
         s = s + [dict(label=[-1], data=[seq["leak"]], mem=0)]
     for sched, d in zip(case["scheds"], obs["dask"]):
         if "raised" in d:
-            out.append((dict(case=case, sched=sname(sched)), s, None, None, d))
+            out.append((dict(case=case, sched=sname(sched), pickled=is_pickled(sched)), s, None, None, d))
             continue
         cells = list(d["cells"])
         if case["kind"] == "draw":
@@ -361,7 +445,7 @@ def expand(case, obs):
         files = None
         if "files" in d:
             files = [(f["index"], f["data"]) for f in d["files"]]
-        out.append((dict(case=case, sched=sname(sched)), s, (d["shape"], cells), files, d))
+        out.append((dict(case=case, sched=sname(sched), pickled=is_pickled(sched)), s, (d["shape"], cells), files, d))
     return out
 
 
@@ -375,7 +459,16 @@ def emit_case(sub) -> str:
         dk = "(Some (" + core.clist(core.cnat(n) for n in p[0]) + ", " + core.clist(ccell(c) for c in p[1]) + "))"
     fl = "None" if files is None else "(Some " + core.clist(
         f"({core.cnat(i) if 0 <= i < 5000 else '4999%nat'}, {cparams(d)})" for i, d in files) + ")"
-    return (f"(mkCase {cmode(case)} {core.cbool(case['kind'] in ('enc', 'encs'))} {seq} {dk} {fl})")
+    return (f"(mkCase {cmode(case)} {core.cbool(case['kind'] in ('enc', 'encs'))} {seq} {dk} {fl} {cpipe(desc)})")
+
+
+def cpipe(desc) -> str:
+    case = desc["case"]
+    if case["kind"] != "encs" or not case.get("pipe"):
+        return "None"
+    ms = core.clist(f"(mkMI {core.cz(int(j))} {core.cbool(bool(en))})" for j, en, _ in case["pipe"])
+    st = "None" if not case.get("det") else "(Some " + core.clist(core.cz(int(x)) for x in case["det"]) + ")"
+    return f"(Some ({ms}, {core.cbool(bool(desc.get('pickled')))}, {st}))"
 
 
 def emit_file(subs) -> str:
@@ -383,7 +476,7 @@ def emit_file(subs) -> str:
     return ("From Coq Require Import ZArith List.\nFrom PyxelV Require Import Model.Parallel.\n"
             "From PyxelGen Require Import Gen_C07.\nImport ListNotations.\n"
             f"Definition cases : list par_case := [\n  {body}\n].\n"
-            "Eval vm_compute in mismatches_cfg src_cfg cases.\nEval vm_compute in violations cases.\n")
+            "Eval vm_compute in mismatches_cfg src_cfg src_pickle_hooks cases.\nEval vm_compute in violations cases.\n")
 
 
 # ------------------------------------------------------------------------------------------ classification
@@ -393,12 +486,13 @@ def classify(sub, is_mismatch):
     desc, s, p, files, raw = sub
     case, sched = desc["case"], desc["sched"]
     kind = case["kind"]
+    extra = dict(problem="model_fitting") if case.get("fit") else {}
     if kind == "islands":
         if case.get("evolve"):
-            return "calibration_outcome", dict(clause="calibration_outcome", scheduler=sched)
+            return "calibration_outcome", dict(clause="calibration_outcome", scheduler=sched, **extra)
         return "island_order", dict(clause="island_order")
     if kind == "bfe":
-        return "bfe", dict(clause="bfe", scheduler=sched)
+        return "bfe", dict(clause="bfe", scheduler=sched, **extra)
     if kind == "draw":
         wk = ">1" if sched.startswith("threads") and sched != "threads1" else "1"
         return "seeded_threads", dict(clause="seeded_threads", scheduler=sched.rstrip("0123456789"), workers=wk)
@@ -416,6 +510,10 @@ def classify(sub, is_mismatch):
     sig = dict(clause="params_agree", mode=mode, **{"class": cls})
     if cls == "other":
         sig["scheduler"] = sched
+        if desc.get("pickled"):
+            sig["tasks_pickled"] = True
+        if case.get("pipe"):
+            sig["disabled_models"] = sum(1 for _, en, _ in case["pipe"] if not en)
         if kind == "encs":
             sig["short_names"] = "collide" if len(set(case["pattern"])) < len(case["pattern"]) else "distinct"
         if files is not None and s is not None and p is not None:
@@ -440,7 +538,14 @@ def to_violation(sub, is_mismatch) -> Violation:
 
 
 def correspondence(ctx: Ctx, cases, tag="c"):
-    obs = core.run_driver(ctx, "c07", cases, workers=8, chunk=max(1, (len(cases) + 23) // 24), timeout=1500)
+    # neighbours in the case list cost alike (process pools, islands): deal them out over the driver chunks
+    nchunk = 24
+    order = sorted(range(len(cases)), key=lambda i: (i % nchunk, i))
+    res = core.run_driver(ctx, "c07", [cases[i] for i in order], workers=8, chunk=max(1, (len(cases) + nchunk - 1) // nchunk),
+                          timeout=1500)
+    obs = [None] * len(cases)
+    for i, o in zip(order, res):
+        obs[i] = o
     subs = []
     for c, o in zip(cases, obs):
         if "crash" in o or "driver_error" in o:
@@ -496,6 +601,13 @@ def account(ctx: Ctx, subs):
             keys = [f"m{j}.{a}" for j, a in c["layout"]]
             ctx.dist("keys listed in alphabetical order", keys == sorted(keys))
             ctx.dist("one key is a detector setting", "detector_key" in c)
+            plan = c.get("pipe")
+            ctx.dist("models switched off in the pipeline", "no trace" if plan is None else sum(1 for _, en, _ in plan if not en))
+            if plan is not None:
+                ctx.dist("switched-off model x tasks pickled",
+                         f"{'off>=1' if any(not en for _, en, _ in plan) else 'off=0'}/{'pickled' if desc.get('pickled') else 'in-memory'}")
+                ctx.dist("groups holding probe instances", len({g for _, _, g in plan}))
+        ctx.dist("tasks pickled", bool(desc.get("pickled")))
         if c["kind"] in ("enc", "encs", "draw"):
             ctx.dist("mode/nparams", f"{c['mode']}/{len(c['params'])}")
             ctx.dist("outputs", bool(files is not None))
@@ -538,6 +650,8 @@ def run(ctx: Ctx):
         "(C02-ObsTimes: the non-dask path ignores them)",
         "each run is a function of (copy of the processor, parameter values) -- C06; checked here only through the "
         "trace counter the probe leaves on the detector it is given",
+        "a lossy pickle hook on a class WITHOUT its own __deepcopy__ changes every deep copy alike (sequential = parallel): "
+        "reported through the broken theorem / fail-closed translator, without a failing input of THIS property",
         "dask executes every chunk once and places it by index (not proved; sampled under the schedulers listed)",
         "the thread-RNG defect is exhibited on the real code only by the forced schedule (barrier probes), not by the theorem",
     ]
@@ -591,6 +705,14 @@ def search(ctx: Ctx):
             c["scheds"] = [SCHEDS[0]]
             c["outputs"] = (mode == "product")
             cases.append(c)
+    # what a worker receives: pipelines with models that are switched off (every group, 1..3 of them), every pickling
+    # member of the scheduler dimension
+    for pat in [q for n in (1, 2, 3) for q in partitions(n)]:
+        for mode in ("product", "custom", "sequential"):
+            c = gen_encs(r, mode, pat, vector="mix", decoys=1 + (len(cases) % 3))
+            c["scheds"] = [SCHEDS[0]] + PICKLED
+            c["outputs"] = (mode == "custom")
+            cases.append(c)
     # the inputs of the repaired defects (a regression is reported with a concrete input)
     cases += corpus_cases()
     subs, mism, viol = correspondence(ctx, cases, tag="s")
@@ -608,7 +730,8 @@ def replay(ctx: Ctx, rp: dict) -> int:
     c = dict(case["case"])
     want = case.get("sched")
     if "scheds" in c:
-        c["scheds"] = [s for s in c["scheds"] if sname(s) == want] or c["scheds"]
+        c["scheds"] = [s for s in c["scheds"] if sname(s) == want] or [s for s in ALL_SCHEDS + [PROC] if sname(s) == want] \
+            or c["scheds"]
     obs = core.run_driver(ctx, "c07", [c], workers=1)[0]
     print("case:", json.dumps(c)[:1500])
     print("implementation now returns:", json.dumps(obs, default=str)[:3000])
@@ -637,9 +760,20 @@ META = dict(
         "mapping iterates in the tuples' order (soundness + necessity); assembly independent of every completion order, "
         "rank/unrank bijective for any shape, island k created from seed k, DaskBFE chunking; interleaving model of "
         "save/seed/draw/restore on one shared generator (threads: REFUTED with a witness schedule, open finding; one "
-        "worker or one generator per worker: always the sequential outcome). That the implementation behaves like the "
+        "worker or one generator per worker: always the sequential outcome). WHAT A WORKER RECEIVES (round 2b): the rows of "
+        "every __getstate__/__setstate__ of the classes that travel to workers are regenerated; proved: when every "
+        "attribute of every hooked class comes back (hooks_faithful, re-checked against the regenerated rows by "
+        "C07_pickle_hooks_as_coded) the pipeline a task works on -- pickled (process pool) or deep-copied (sequential "
+        "path, threads) -- is the caller's, for every pipeline and every assignment of enabled flags, and the end-to-end "
+        "statement holds under every scheduler kind (C07_any_scheduler_as_coded); deep copies bypass the hooks of a class "
+        "with its own __deepcopy__; a group rebuilt from definitions without `enabled` executes every model and differs "
+        "from the sequential run as soon as one model is switched off. That the implementation behaves like the "
         "model is established by correspondence (testing): the same observation run with_dask=False and True under "
-        "synchronous / 1,2,4,16 threads / 2 processes with data-dependent delays, parameter sets whose short names "
+        "synchronous / 1,2,4,16 threads / 2 processes / dask's process-pool serialisation driven in-process (sync and 4 "
+        "threads) / caller's detector+pipeline sent through pickle or cloudpickle first, with data-dependent delays, "
+        "pipelines holding switched-off models in every group (execution trace of every run), detector and readout "
+        "settings read back by every run, pyxel's own calibration problem evaluated through DaskBFE / DaskIsland by "
+        "workers that received it through pickle, parameter sets whose short names "
         "collide in every position pattern of 1..4 parameters, every result entry (label, values each run RECEIVED per "
         "parameter, trace counter, executions counted), output files vs. index, islands (seeds, first fitness, champions "
         "after an evolution vs. an in-thread reference evolution), DaskBFE values -- compared inside Coq against the "
